@@ -46,3 +46,101 @@ Theorem c17_accept_id : forall st st', ostep st st' -> o_acc1 st' <> o_acc1 st -
   o_acc1 st' = o_acc1 st + 1.
 Proof. intros st st' H Hn. destruct (accept_id1 _ _ H Hn) as [E _]. exact E. Qed.
 Print Assumptions c17_accept_id.
+
+(* ---- subscribe/unsubscribe identifiers (13-bit counter, skip on collision, limit 512) ---- *)
+(* ---- to append to coq/props/C17.v ----
+   needs, in addition to the imports already there:                                  *)
+From Coq Require Import List.
+From RecordUpdate Require Import RecordUpdate.
+From MQ Require Import InboundProofs TxIds.
+
+(* Subscribe/Unsubscribe identifiers (request.go unorderedTxs): in every reachable state of the
+   closed system -- any API history, OpAdopt included, under any environment script -- the
+   pending requests have pairwise distinct, non-zero 16-bit identifiers, each in the address
+   space of its kind, and there are at most 512 of them. *)
+Theorem c17_tx_invariant : forall s, reachable s -> TxInv (sy_c s).
+Proof. exact reachable_TxInv. Qed.
+Print Assumptions c17_tx_invariant.
+
+(* the same for every client state the sequential interface can reach under ANY worlds (scripted,
+   i.e. arbitrary/hostile Persistence answers included) *)
+Theorem c17_tx_invariant_any_world : forall c, reach c -> TxInv c.
+Proof. exact reach_TxInv. Qed.
+Print Assumptions c17_tx_invariant_any_world.
+
+(* one step: every operation, every world *)
+Theorem c17_tx_step : forall c o w c' r w',
+  TxInv c -> step c o w = Some ((c', r), w') -> TxInv c'.
+Proof. exact step_TxInv. Qed.
+Print Assumptions c17_tx_step.
+
+(* a fresh client (InitSession, AdoptSession) has no pending request *)
+Theorem c17_tx_init : forall cf cid w c r w', op_init cf cid w = Some ((Some c, r), w') -> TxInv c.
+Proof. exact op_init_TxInv. Qed.
+Print Assumptions c17_tx_init.
+Theorem c17_tx_adopt : forall cf z1 z2 w c r w', op_adopt cf z1 z2 w = Some ((Some c, r), w') -> TxInv c.
+Proof. exact op_adopt_TxInv. Qed.
+Print Assumptions c17_tx_adopt.
+
+(* the invariant spelled out *)
+Theorem c17_tx_distinct : forall c t t',
+  TxInv c -> In t (k_txs c) -> In t' (k_txs c) -> tx_pid t = tx_pid t' -> t = t'.
+Proof. exact TxInv_distinct. Qed.
+Print Assumptions c17_tx_distinct.
+
+Theorem c17_tx_range : forall c t, TxInv c -> In t (k_txs c) ->
+  tx_pid t <> 0 /\
+  match snd t with
+  | Some _ => 24576 <= tx_pid t < 32768
+  | None => 16384 <= tx_pid t < 24576
+  end.
+Proof. exact TxInv_range. Qed.
+Print Assumptions c17_tx_range.
+
+Theorem c17_tx_limit : forall c, TxInv c -> (length (k_txs c) <= 512)%nat.
+Proof. exact TxInv_limit. Qed.
+Print Assumptions c17_tx_limit.
+
+(* startTx: with fewer pending requests than fuel the search ends (the fuel-exhaustion branch of
+   the model, which the unbounded Go loop does not have, is unreachable), after at most as many
+   skips as there are pending requests, with an identifier of the requested space that no pending
+   request holds; only the counter changes *)
+Theorem c17_tx_pick_fresh : forall space (fuel : nat) c c' pid,
+  un_space space -> (length (k_txs c) < fuel)%nat -> N.of_nat fuel <= 8192 ->
+  tx_pick fuel c space = (c', pid) ->
+  ~ In pid (pids c) /\ pid <> 0 /\ pid < 65536 /\ in_un_space pid space /\
+  c' = c <| k_txn := k_txn c' |> /\
+  exists i : nat, (i <= length (k_txs c))%nat /\ pid = cand space (k_txn c + N.of_nat i) /\
+                  k_txn c' = k_txn c + N.of_nat i + 1.
+Proof. exact tx_pick_fresh. Qed.
+Print Assumptions c17_tx_pick_fresh.
+
+(* what Subscribe/Unsubscribe does to the pending set (no precondition at all): an error return
+   leaves it exactly as it was (ErrMax only with 512 pending); otherwise fewer than 512 were
+   pending and one entry with a fresh identifier of the right space was added *)
+Theorem c17_subscribe_post : forall c sub level fs w c' r w',
+  op_subscribe c sub level fs w = Some ((c', r), w') -> sub_post c sub fs (c', r).
+Proof. intros c sub level fs w c' r w' H. exact (proj2 (op_subscribe_post c sub level fs _ _ _ H)). Qed.
+Print Assumptions c17_subscribe_post.
+
+(* excess gets ErrMax: with valid arguments, exactly when 512 requests are pending (the test comes
+   before lockWrite: also on a closed or disconnected client) ... *)
+Theorem c17_subscribe_errmax_iff : forall c sub level fs w c' r w',
+  sub_args_ok sub fs -> op_subscribe c sub level fs w = Some ((c', r), w') ->
+  (r = RetErr E_max <-> (tx_limit <= length (k_txs c))%nat).
+Proof. exact op_subscribe_errmax. Qed.
+Print Assumptions c17_subscribe_errmax_iff.
+
+(* ... and without any call to the outside world: no block, nothing written *)
+Theorem c17_subscribe_errmax_silent : forall c sub level fs w c' w',
+  op_subscribe c sub level fs w = Some ((c', RetErr E_max), w') ->
+  w' = w /\ k_txs c' = k_txs c /\ (tx_limit <= length (k_txs c))%nat.
+Proof. exact op_subscribe_errmax_silent. Qed.
+Print Assumptions c17_subscribe_errmax_silent.
+
+(* non-vacuity: a connected client with three pending Subscribes (the third one skipped two taken
+   candidates after the counter wrapped) and one Unsubscribe; it satisfies the invariant *)
+Example c17_tx_nonvacuous :
+  ex_tx_run = Some ([(16384 + 2, 3, None); (24576 + 1, 2, Some [[100]]);
+                     (24576, 1, Some [[98]; [99]]); (24576 + 8191, 0, Some [[97]])], 8195).
+Proof. exact tx_example. Qed.
